@@ -105,7 +105,8 @@ structure Args where
   stemArg : Option String                       -- `--namespace-output-stem`
   templates : Option (List TemplateFile)        -- every file below `--templates DIR` (none: option absent)
   supportTemplates : Option (List TemplateFile) -- every file below `--support-templates DIR`
-  lookupFiles : List String := []               -- every `*.dsdl` / `*.uavcan` below the lookup directories (resolved)
+  lookupFiles : List String := []               -- every `*.dsdl` / `*.uavcan` below the lookup directories (resolved):
+                                                -- `--lookup-dir` arguments AND the entries of `DSDL_INCLUDE_PATH`
   deriving Repr
 
 /-- What `ArgparseRunner.run` does.  `listConfiguration`: `_list_configuration_only` prints the resolved configuration
